@@ -8,7 +8,7 @@ Names of a registered definition under EACH naming convention, and the keyword f
   convention = stop there, names that start with a non-letter keep their `#...#` prefix) and
   `get_function_definition` (explicit `name=` of `register_function`, `@specs.name`, the payload's
   `__name__`; `if convention: alias = convert_parameter_name(..)` for parameters without an alias);
-* `utils.py:is_keyword / filter_parameters_dict` and `system.py:call_func`
+* `utils.py:is_keyword / filter_parameters_dict` (after d6863d4: keys that are not strings are dropped too) and `system.py:call_func`
   (`context(name, engine, receiver)(*args, **filter_parameters_dict(kwargs))`).
 
 Names are ASCII (`harness/gens/registry.py` refuses anything else), so `\w` is `isWordChar`.
@@ -146,32 +146,21 @@ inductive DKey where
   | other (tag : Nat)
 deriving Repr, DecidableEq, Inhabited
 
-/-- what `call()` raises before the resolver is asked -/
-inductive CallErr where
-  | typeError           -- `KEYWORD_REGEX.match(<not a string>)`
-deriving Repr, DecidableEq, Inhabited
-
-/-- `utils.filter_parameters_dict(parameters)`: walks the keys in order, `is_keyword(name)` on each
-    (raises for a key that is not a string), deletes the ones that fail -/
-def filterParametersDict {α : Type} : List (DKey × α) → Except CallErr (List (Name × α))
-  | [] => .ok []
-  | (.other _, _) :: _ => .error .typeError
-  | (.str s, v) :: r =>
-      match filterParametersDict r with
-      | .error e => .error e
-      | .ok r' => .ok (if isKeyword s then (s, v) :: r' else r')
+/-- `utils.filter_parameters_dict(parameters)`: walks the keys in order and deletes every key that is not a
+    string (`not isinstance(name, str)`) or fails `is_keyword(name)`; it cannot raise -/
+def filterParametersDict {α : Type} : List (DKey × α) → List (Name × α)
+  | [] => []
+  | (.other _, _) :: r => filterParametersDict r
+  | (.str s, v) :: r => if isKeyword s then (s, v) :: filterParametersDict r else filterParametersDict r
 
 /-- what `call_func` hands to `context(name, engine, receiver)`: `*args, **filter_parameters_dict(kwargs)` -/
-def callHandOver (args : List Val) (kwargs : List (DKey × Val)) : Except CallErr (List Arg × KwArgs) :=
-  match filterParametersDict kwargs with
-  | .error e => .error e
-  | .ok kw => .ok (args.map .value, kw.map fun kv => (kv.1, .value kv.2))
+def callHandOver (args : List Val) (kwargs : List (DKey × Val)) : List Arg × KwArgs :=
+  (args.map .value, (filterParametersDict kwargs).map fun kv => (kv.1, .value kv.2))
 
 /-- `call(name, args, kwargs)`; `layers` = the definitions registered under `name` -/
 def callFunc (L : Lattice) (layers : List Layer) (receiver : Option Val) (args : List Val)
-    (kwargs : List (DKey × Val)) : Except CallErr Outcome :=
-  match callHandOver args kwargs with
-  | .error e => .error e
-  | .ok (a, kw) => .ok (resolve L layers { receiver := receiver, args := a, kwargs := kw })
+    (kwargs : List (DKey × Val)) : Outcome :=
+  let (a, kw) := callHandOver args kwargs
+  resolve L layers { receiver := receiver, args := a, kwargs := kw }
 
 end Yaql.Naming
